@@ -4,7 +4,7 @@
    The byte-level refinement of the handle operations to Spec/FsSpec.v is decided per explored history
    (checks/c01.py: implementation vs the extracted reference model vs the extracted decoder); see DESIGN.md. *)
 From Coq Require Import ZArith List Bool.
-From ADF Require Import CPrelude Generated.Leaf Proofs.GeometryP Model.FileMap Proofs.FileMapP.
+From ADF Require Import CPrelude Generated.Leaf Proofs.GeometryP Model.FileMap Proofs.FileMapP Spec.FsSpec Model.FileIO Proofs.FileIOL Proofs.FileIOP Proofs.FileIOTieP.
 Import ListNotations.
 Local Open Scope Z_scope.
 
@@ -58,8 +58,8 @@ Proof. exact nexts_is_library_count. Qed.
 
 (* growing a file block by block: the data list grows at the end, an extension block is consumed exactly when a new group of
    72 starts beyond the header, and no block is referenced twice - for every history *)
-Theorem C01_append_block : forall s d e, Inv s -> ~ In d (f_data s ++ f_exts s) -> ~ In e (f_data s ++ f_exts s) -> d <> e ->
-  Inv (f_append s d e) /\ f_data (f_append s d e) = f_data s ++ [d] /\
+Theorem C01_append_block : forall s d e, FileMapP.Inv s -> ~ In d (f_data s ++ f_exts s) -> ~ In e (f_data s ++ f_exts s) -> d <> e ->
+  FileMapP.Inv (f_append s d e) /\ f_data (f_append s d e) = f_data s ++ [d] /\
   f_exts (f_append s d e) = (if needs_ext (length (f_data s)) then f_exts s ++ [e] else f_exts s).
 Proof. exact append_inv. Qed.
 
@@ -74,6 +74,92 @@ Example C01_filemap_example :
   find_block (enc_hdr l) (enc_exts l [5000; 5001]%Z) 149 = Some 1149%Z /\ nexts 150 = 2%nat /\ nexts 72 = 0%nat /\ nexts 73 = 1%nat /\ nexts 144 = 1%nat /\ nexts 145 = 2%nat.
 Proof. vm_compute. repeat split; reflexivity. Qed.
 
+(* ---- the file handle state machine (Model/FileIO.v: adfFileOpen / Read / Write / Seek / Truncate / Flush / Close statement by statement; tied
+   to adf_file.c by checks/fileiocorr.py: the fields of struct AdfFile, the results and the raw blocks after every call = the model's) ----
+
+   Inv s L E : the handle state s is coherent with the ghost lists L (data blocks in order) and E (extension blocks): header table,
+               extension blocks (buffered or on the volume), buffered data block, cursor fields (pos, posInDataBlk, nDataBlock,
+               posInExtBlk, curDataPtr), no block referenced twice.
+   Repr s L ct : the file content the state stands for (buffered block overlaid on the volume) is the byte list ct.
+   For EVERY state satisfying Inv (files of any size, any number of extension blocks, OFS and FFS, any block numbers), with no
+   device fault (nobad), and for an allocator that hands out blocks the file does not own yet or refuses (al_ok): *)
+
+(* a new file: the invariant holds, the content is empty *)
+Theorem C01_handle_new : forall bs ofs key, 0 < bs -> forall d r w,
+  Inv bs ofs key (fio_new bs d key r w) [] [] /\ Repr bs (fio_new bs d key r w) [] [] /\ pos (fio_new bs d key r w) = 0.
+Proof. exact fio_new_ok. Qed.
+
+(* read: exactly the bytes of the byte-array model from the position on, clamped at the end of the file; position advanced by the
+   count; nothing else changes (Spec/FsSpec.v ORead: firstn k (skipn pos ct) with the same k) *)
+Theorem C01_handle_read : forall bs ofs key, 0 < bs -> forall s L E ct n, Inv bs ofs key s L E -> Repr bs s L ct -> 0 <= n ->
+  exists s' r, fio_read bs ofs nobad s n = (s', r) /\ Inv bs ofs key s' L E /\ Repr bs s' L ct /\
+    (let k := if mr s then Z.max 0 (Z.min n (fsize s - pos s)) else 0 in
+     r = firstn (Z.to_nat k) (skipn (Z.to_nat (pos s)) ct) /\ pos s' = pos s + k /\ fh s' = fh s /\ mw s' = mw s /\ mr s' = mr s).
+Proof. exact fio_read_ok. Qed.
+
+(* seek: always succeeds, the position is clamped to the end of the file, the content is untouched *)
+Theorem C01_handle_seek : forall bs ofs key, 0 < bs -> forall s L E ct p, Inv bs ofs key s L E -> Repr bs s L ct -> 0 <= p ->
+  exists s', fio_seek bs ofs nobad s p = (true, s') /\ Inv bs ofs key s' L E /\ Repr bs s' L ct /\ pos s' = Z.min p (fsize s)
+    /\ fh s' = fh s /\ mw s' = mw s /\ mr s' = mr s.
+Proof. exact fio_seek_ok. Qed.
+
+(* write: w bytes are accepted; the content becomes the model's splice of exactly those w bytes at the position (overwrite in place,
+   extend at the end, new blocks / extension blocks taken as needed); the position advances by w; w is short only when the allocator
+   refused (or ran out of answers) *)
+Theorem C01_handle_write : forall bs ofs key, 0 < bs -> forall s L E ct data al, Inv bs ofs key s L E -> Repr bs s L ct -> mw s = true -> al_ok key L E al ->
+  exists s' w al' L' E', fio_write bs ofs nobad s data al = (s', w, al') /\ Inv bs ofs key s' L' E'
+    /\ Repr bs s' L' (splice ct (pos s) (firstn (Z.to_nat w) data)) /\ pos s' = pos s + w /\ 0 <= w <= len data /\ mw s' = true /\ mr s' = mr s
+    /\ (w = len data -> al_ok key L' E' al') /\ (w < len data -> exists r, al = r ++ None :: al' \/ (al' = [] /\ True)).
+Proof. exact fio_write_ok. Qed.
+
+Theorem C01_handle_write_readonly : forall bs ofs s data al, mw s = false -> fio_write bs ofs nobad s data al = (s, 0, al).
+Proof. exact fio_write_readonly. Qed.
+
+(* flush + close, then a later handle (or a remount: the volume is all a later handle sees): the same content, position 0 *)
+Theorem C01_handle_close_reopen : forall bs ofs key, 0 < bs -> forall s L E ct r w, Inv bs ofs key s L E -> Repr bs s L ct -> mw s = true ->
+  exists s', fio_open bs ofs nobad (fio_close bs ofs s) key r w = (true, s') /\ Inv bs ofs key s' L E /\ Repr bs s' L ct /\ pos s' = 0
+    /\ fsize s' = fsize s /\ mr s' = r /\ mw s' = w /\ chg s' = false.
+Proof. exact close_open_ok. Qed.
+
+(* truncate to the current size is a seek to the end; truncate to a larger size appends zeros (as many as the allocator allows;
+   the call reports success exactly when all were stored).  Shrinking is NOT proved: it is decided by the correspondence and the
+   histories only (C01_handle_truncate is partial in that sense) *)
+Theorem C01_handle_truncate_same_partial : forall bs ofs key, 0 < bs -> forall s L E ct al, Inv bs ofs key s L E -> Repr bs s L ct -> mw s = true ->
+  exists s', fio_truncate bs ofs nobad s (fsize s) al = (true, s', [], al) /\ Inv bs ofs key s' L E /\ Repr bs s' L ct /\ pos s' = fsize s /\ fsize s' = fsize s.
+Proof. exact fio_truncate_same_ok. Qed.
+
+Theorem C01_handle_truncate_grow_partial : forall bs ofs key, 0 < bs -> forall s L E ct al sizeNew,
+  Inv bs ofs key s L E -> Repr bs s L ct -> mw s = true -> al_ok key L E al -> fsize s < sizeNew ->
+  exists ok s' al' L' E' w, fio_truncate bs ofs nobad s sizeNew al = (ok, s', [], al') /\ Inv bs ofs key s' L' E' /\ Repr bs s' L' (ct ++ zerosZ w)
+    /\ 0 <= w <= sizeNew - fsize s /\ (ok = true <-> w = sizeNew - fsize s) /\ pos s' = fsize s' /\ fsize s' = fsize s + w.
+Proof. exact fio_truncate_grow_ok. Qed.
+
+(* the arithmetic the model uses is the arithmetic of the C source (functions regenerated from adf_file_util.h / adf_file.c) *)
+Theorem C01_model_arithmetic_is_librarys : forall bs, valid_bs bs ->
+  (forall size, 0 <= size < 2 ^ 32 -> size2db size bs = c_adfFileSize2Datablocks size bs) /\
+  (forall n, 0 <= n < 2 ^ 32 -> db2ext n = c_adfFileDatablocks2Extblocks n) /\
+  (forall p, 0 <= p < 2 ^ 32 -> pos2db p bs = c_adfPos2DataBlock p bs) /\
+  (forall n, 0 <= n -> (d_adfFileCreateNextBlock n = 1 <-> needs_x n = true) /\ (d_adfFileCreateNextBlock n = 0 <-> n < 72)).
+Proof.
+  intros bs Hb. split; [intros; apply size2db_is_librarys; assumption|]. split; [intros; apply db2ext_is_librarys; assumption|].
+  split; [intros; apply pos2db_is_librarys; assumption|intros; apply needs_x_is_librarys; assumption].
+Qed.
+
+(* non-vacuity: a concrete OFS history run on the model inside Coq - create, write 1100 bytes (three blocks), seek back, overwrite across
+   a block edge, close, reopen, read everything - gives the bytes of the byte-array model *)
+Example C01_handle_example :
+  let al := [Some (901, 0); Some (902, 0); Some (903, 0)] in
+  let data := map Z.of_nat (seq 0 1100) in
+  let s0 := fio_new 488 (fun _ => BOther) 900 true true in
+  let '(s1, w1, _) := fio_write 488 true nobad s0 data al in
+  let '(_, s2) := fio_seek 488 true nobad s1 480 in
+  let '(s3, w3, _) := fio_write 488 true nobad s2 [7; 7; 7; 7; 7; 7; 7; 7; 7; 7; 7; 7] [] in
+  let d := fio_close 488 true s3 in
+  let '(_, s4) := fio_open 488 true nobad d 900 true false in
+  let '(_, bytes) := fio_read 488 true nobad s4 5000 in
+  w1 = 1100 /\ w3 = 12 /\ bytes = splice data 480 [7; 7; 7; 7; 7; 7; 7; 7; 7; 7; 7; 7] /\ length bytes = 1100%nat.
+Proof. vm_compute. repeat split; reflexivity. Qed.
+
 Print Assumptions C01_geometry_pos.
 Print Assumptions C01_geometry_datablocks.
 Print Assumptions C01_geometry_extblocks.
@@ -83,3 +169,12 @@ Print Assumptions C01_block_found_where_sought.
 Print Assumptions C01_extension_count_is_librarys.
 Print Assumptions C01_append_block.
 Print Assumptions C01_append_decision_is_librarys.
+Print Assumptions C01_handle_new.
+Print Assumptions C01_handle_read.
+Print Assumptions C01_handle_seek.
+Print Assumptions C01_handle_write.
+Print Assumptions C01_handle_write_readonly.
+Print Assumptions C01_handle_close_reopen.
+Print Assumptions C01_handle_truncate_same_partial.
+Print Assumptions C01_handle_truncate_grow_partial.
+Print Assumptions C01_model_arithmetic_is_librarys.
